@@ -59,7 +59,8 @@ BUDGET_S = {"quick": 300, "thorough": 3300}
 
 S_CORE = [["S", "Ka", 1], ["S", "Kb", 2], ["S", "Ka", "{{Kb}}_x"]]
 S_MORE = [["S", "Kn.a", 3], ["S", "Kb", None], ["S", "Kb", "{{Ka}}_x"], ["S", "Kn.b", "{{Kn.a}}_x"]]
-CONSUMER_VARIANTS = [["St"], ["U"], ["M", "Ka"], ["M", "Kb"], ["W", "Ka"], ["W", "Kb"], ["C", "Ka"], ["C", "Kb"]]
+CONSUMER_VARIANTS = [["St"], ["U"], ["M", "Ka"], ["M", "Kb+Ka"], ["W", "Ka"], ["W", "Ka+Kb"], ["C", "Ka"],
+                     ["C", "Kb+Ka"]]
 
 
 # ------------------------------------------------------------------------------------------------
